@@ -54,6 +54,15 @@ def build_array(arr, kind):
     if kind == "fsarray":
         from curtsies.formatstringarray import fsarray
         return fsarray(rows)
+    if kind == "fsarray_rows":
+        # an FSArray filled row by row with whole-row assignment (a[i] = row, the form of the module docstring):
+        # its declared width is that of its first row, later rows may be longer
+        from curtsies.formatstringarray import FSArray
+        from curtsies.formatstring import fmtstr
+        a = FSArray(len(rows), len(rows[0]) if rows else 0)
+        for i, r in enumerate(rows):
+            a[i] = r if not isinstance(r, str) else fmtstr(r)
+        return a
     return rows
 
 
